@@ -12,12 +12,13 @@ import (
 // Generic "callers against a limiter stack" scenario shared by C02, C12, C13, C19.
 
 type clientSpec struct {
-	arrive    time.Duration // sleeps this long before calling Acquire
-	hold      time.Duration
-	outcome   int
-	cancelAt  time.Duration // absolute virtual offset; <0 = never
-	preCancel bool
-	part      string
+	arrive      time.Duration // sleeps this long before calling Acquire
+	hold        time.Duration
+	outcome     int
+	cancelAt    time.Duration // absolute virtual offset; <0 = never
+	preCancel   bool
+	part        string
+	ctxDeadline time.Duration // > 0: the caller's context carries this deadline (absolute virtual offset)
 }
 
 type client struct {
@@ -70,22 +71,24 @@ func (sc *scen) midOp() bool {
 }
 
 type scenOpts struct {
-	kinds       []string
-	strategies  []string
-	maxClients  int
-	arrivals    []time.Duration
-	holds       []time.Duration
-	qTimeouts   []time.Duration
-	bTimeouts   []time.Duration
-	deadlines   []time.Duration
-	cancelPct   int
-	cancelTimes []time.Duration
-	preHeldAll  bool // root takes all capacity up front
-	noReleases  bool // pre-held tokens are only released when draining
-	backlogs    []int
-	limits      []int
-	relTimes    []time.Duration
-	queueOnly   bool // pools: only the queue orderings
+	kinds          []string
+	strategies     []string
+	maxClients     int
+	arrivals       []time.Duration
+	holds          []time.Duration
+	qTimeouts      []time.Duration
+	bTimeouts      []time.Duration
+	deadlines      []time.Duration
+	cancelPct      int
+	cancelTimes    []time.Duration
+	preHeldAll     bool // root takes all capacity up front
+	noReleases     bool // pre-held tokens are only released when draining
+	backlogs       []int
+	limits         []int
+	relTimes       []time.Duration
+	queueOnly      bool // pools: only the queue orderings
+	ctxDeadlinePct int
+	ctxDeadlines   []time.Duration
 }
 
 func drawScen(r *Run, o scenOpts) *scen {
@@ -141,6 +144,9 @@ func drawScen(r *Run, o scenOpts) *scen {
 		if c.Strategy == "lookup" || c.Strategy == "predicate" {
 			sp.part = []string{"a", "b", "a", "zz"}[t.Intn(4, "part")]
 		}
+		if o.ctxDeadlinePct > 0 && sp.cancelAt < 0 && !sp.preCancel && t.Chance(o.ctxDeadlinePct, "ctx-deadline?") {
+			sp.ctxDeadline = o.ctxDeadlines[t.Intn(len(o.ctxDeadlines), "ctx-deadline")]
+		}
 		sc.clients = append(sc.clients, &client{spec: sp})
 	}
 	pre := 0
@@ -158,7 +164,7 @@ func drawScen(r *Run, o scenOpts) *scen {
 	}
 	r.Mixf("%s %s clients=%d preheld=%d", r.P.ID, c, n, pre)
 	for i, cl := range sc.clients {
-		r.Mixf("  client%d arrive=%v hold=%v outcome=%s cancelAt=%v preCancel=%v part=%q", i, cl.spec.arrive, cl.spec.hold, outcomeNames[cl.spec.outcome], cl.spec.cancelAt, cl.spec.preCancel, cl.spec.part)
+		r.Mixf("  client%d arrive=%v hold=%v outcome=%s cancelAt=%v preCancel=%v part=%q ctxDeadline=%v", i, cl.spec.arrive, cl.spec.hold, outcomeNames[cl.spec.outcome], cl.spec.cancelAt, cl.spec.preCancel, cl.spec.part, cl.spec.ctxDeadline)
 	}
 	for i, rl := range sc.releases {
 		r.Mixf("  release%d at=%v outcome=%s", i, rl.at, outcomeNames[rl.outcome])
@@ -206,7 +212,14 @@ func (sc *scen) start() {
 				cl.canceled.Store(true)
 			}
 			tk.Sleep(cl.spec.arrive)
-			ctx := st.PartCtx(tk.Ctx, cl.spec.part)
+			base := tk.Ctx
+			if cl.spec.ctxDeadline > 0 {
+				// a context with its own deadline (expires like a cancellation at that virtual instant)
+				var dcancel context.CancelFunc
+				base, dcancel = context.WithDeadline(tk.Ctx, s.start.Add(cl.spec.ctxDeadline))
+				defer dcancel()
+			}
+			ctx := st.PartCtx(base, cl.spec.part)
 			tk.Begin("acquire", cl.spec.part)
 			cl.acq = tk.curOp
 			l, ok := st.Lim.Acquire(ctx)
